@@ -98,6 +98,15 @@ def handleMtcp : List String → String
                  else s!"specfail mtcp-send-error-without-peer-disappeared errors={nErr} reports={g}"
      | none => "ok observation-only")
   | "d32obs" :: _ => "ok observation-only"
+  | ["d32sum", fo, total] =>
+    -- a single "ok" for a Send on a connection the peer closed 100 ms before can be TCP timing; all of them cannot:
+    -- the liveness probe of `Send` (a second write after the flush) then does not detect a closed peer and the
+    -- bundle is lost with a success answer
+    (match (fo.drop 9).toNat?, (total.drop 3).toNat? with
+     | some f, some n =>
+       if n ≥ 5 && f == n then s!"specfail mtcp-send-ok-on-closed-connection-every-time first-ok={f} of={n}"
+       else "ok"
+     | _, _ => "skip parse")
   | _ => "skip unknown-op"
 end
 
